@@ -3,9 +3,14 @@
     the files they are given): every returned handle is at offset 0; it is
     read-only, except the throw-away file that serves a populated value when
     there is no write cache at all (nothing is cached then); every file visible
-    under a key name in the write cache has no write permission bit. *)
+    under a key name in the write cache has no write permission bit.
+    Beyond the matrix, for ARBITRARY environment responses and every publishing
+    path of set / put / set_temp_file / put_temp_file (plain or sharded, retry
+    included): the source of every publishing rename / link is a path that an
+    accepted chmod made read-only - the mode it set has no write bit - and that
+    no later chmod made writable again ([C19_read_only_before_visible]). *)
 From Coq Require Import List NArith ZArith String Bool.
-From Kismet Require Import FS.Fs Ops.Ops Spec.StackSpec Proofs.StackSweep.
+From Kismet Require Import FS.Fs FS.Prog Spec.Wp Ops.Ops Spec.StackSpec Proofs.StackSweep Proofs.ReadOnlyFirst.
 Import ListNotations.
 
 Theorem C19_handles_matrix : forall c op, In c configs -> In op ops -> handle_ok c op = true.
@@ -33,3 +38,22 @@ Example C19_mode_0444 :
   | None => False
   end.
 Proof. vm_compute. reflexivity. Qed.
+
+(** Read-only before visible, all responses, every publishing path. *)
+Theorem C19_read_only_before_visible : forall cfg k v (which : bool) fd,
+  qr (cache_set cfg k v) /\ qr (cache_put cfg k v) /\ qr (cache_write_temp which cfg k fd v).
+Proof. intros. split; [apply qr_cache_set|split; [apply qr_cache_put|apply qr_cache_write_temp]]. Qed.
+
+Theorem C19_read_only_before_visible_on_every_run : forall cfg k v w o s,
+  let '(_, _, _, tr) := run (cache_set cfg k v) w o in mon_run q_step s tr <> None.
+Proof. intros cfg k v w o s. exact (read_only_first_run _ (qr_cache_set cfg k v) w o s). Qed.
+
+(** The monitor: a rename / link is accepted only from the path last made read-only;
+    the mode that set_read_only computes (mode & 0o7555) never has a write bit. *)
+Theorem C19_monitor_meaning : forall p q m,
+  q_step None (EvCall (CRename p q) ROk) = None /\ q_step None (EvCall (CLink p q) ROk) = None /\
+  q_step (Some p) (EvCall (CChmod p 420) ROk) = Some None /\      (* 0o644: writable again *)
+  q_step None (EvCall (CChmod p (N.land m 3949)) ROk) = Some (Some p).
+Proof.
+  intros p q m. repeat split. cbn [q_step]. rewrite masked_mode_read_only. reflexivity.
+Qed.
